@@ -280,6 +280,26 @@ impl<'a> TypedGen<'a> {
                 if !rich {
                     return self.leaf(t, Ty::Ts);
                 }
+                if self.cfg.hazard && t.chance(1, 12) {
+                    // the ends of the range of representable instants, pushed over the edge by an interval (the local wall-clock time
+                    // leaves the range before the instant does, depending on the zone)
+                    let edge = if t.chance(1, 2) {
+                        E::call("make_timestamp", vec![E::Int(262142), E::Int(12), E::Int(31), E::Int(23), E::Int(59), E::Int(59), E::Int(0)])
+                    } else {
+                        E::call("make_timestamp", vec![E::Neg(Box::new(E::Int(262143))), E::Int(1), E::Int(1), E::Int(0), E::Int(0), E::Int(0), E::Int(0)])
+                    };
+                    let iv = E::cast(E::Str(t.pick(&["01:00:00", "00:00:01", "13:00:00", "24:00:00"]).to_string()), "interval");
+                    let moved = match t.draw(3) {
+                        0 => E::bin(BinOp::Add, edge, iv),
+                        1 => E::bin(BinOp::Sub, edge, iv),
+                        _ => edge,
+                    };
+                    return if t.chance(2, 3) {
+                        E::call("date_trunc", vec![E::Str(t.pick(&["year", "month", "day", "hour", "minute", "second", "milliseconds", "microseconds"]).to_string()), moved])
+                    } else {
+                        moved
+                    };
+                }
                 match t.draw(8) {
                     0 => E::bin(BinOp::Add, self.gen(t, Ty::Ts, d), self.gen(t, Ty::Iv, d)),
                     1 => E::bin(BinOp::Add, self.gen(t, Ty::Iv, d), self.gen(t, Ty::Ts, d)),
